@@ -92,8 +92,12 @@ class Summaries(object):
 
     def iface_raises(self, iface, meth):
         out = set()
+        # the subscript store is the framework's own write path into a recording (the public set_data / add_metadata assert that
+        # the recording is still open - a precondition of *user* calls); an assertion reachable from the subscript store would be
+        # raised into the intercepted call when the recording is closed concurrently, so it counts as an effect there
+        asserts = meth == '__setitem__'
         for c, m in self.implementations(iface, meth):
-            out |= self.may_raise(m, c)
+            out |= self.may_raise(m, c, include_asserts=asserts)
         return frozenset(out)
 
     def may_return_none(self, fi):
